@@ -394,6 +394,31 @@ def check_property(pid, tier, seed, canary=True):
             viol_lines.append(line)
             print("  failed obligation %s: %s" % (v["obligation"], v["detail"][:300]))
 
+    # ------------------------------------------------------------------ mechanical assumption scan
+    scan = []
+    for u in units:
+        f = os.path.join(BUILD, "verus", u + ".rs")
+        if os.path.exists(f):
+            txt = open(f).read()
+            for kw, what in (("#[verifier::external_body]", "external_body items (contract assumed, body not verified)"), ("assume_specification", "assume_specification"),
+                             ("admit()", "admit()"), ("assume(", "assume(..)"), ("uninterp spec fn", "uninterpreted spec functions (abstract callees)")):
+                n = txt.count(kw)
+                if n:
+                    scan.append("verus:%s: %d x %s" % (u, n, what))
+    hfiles = set()
+    names = kani_run.harness_full_names()
+    for g, hs in groups:
+        for h in hs:
+            if h in names:
+                hfiles.add(names[h].split("::")[1])
+    for hf in sorted(hfiles):
+        f = os.path.join(VERIF, "kani", hf + ".rs")
+        if os.path.exists(f):
+            txt = open(f).read()
+            n1, n2 = txt.count("vassume!("), txt.count("stubs = [")
+            scan.append("kani:%s.rs: %d x vassume! (input-domain constraints: lengths / selectors), %d stubbed harnesses" % (hf, n1, n2))
+    assumptions.extend(scan)
+
     # ------------------------------------------------------------------ evidence
     level = cfg["level"]
     coverage = {
